@@ -368,6 +368,49 @@ pub fn worker(args: &[String]) -> i32 {
             None => 2,
         };
     }
+    if args.first().map(String::as_str) == Some("loaderbatch") {
+        // `vcheck worker C17 loaderbatch <directory> <limit ms> <case index>...`
+        // one line `LOADER-START <idx>` before and `LOADER <idx> some|none|error ..` after each case;
+        // a case that does not return within the limit ends the process with `LOADER <idx> hang`
+        let dir = std::path::PathBuf::from(args.get(1).cloned().unwrap_or_default());
+        let limit_ms: u64 = args.get(2).and_then(|s| s.parse().ok()).unwrap_or(20_000);
+        let idxs: Vec<usize> = args.iter().skip(3).filter_map(|s| s.parse().ok()).collect();
+        std::panic::set_hook(Box::new(|_| {}));
+        let cases = loader_cases();
+        let current = Arc::new(AtomicU64::new(u64::MAX));
+        let started = Arc::new(std::sync::Mutex::new(Instant::now()));
+        {
+            let current = current.clone();
+            let started = started.clone();
+            std::thread::spawn(move || loop {
+                std::thread::sleep(Duration::from_millis(100));
+                let c = current.load(Ordering::SeqCst);
+                if c != u64::MAX && started.lock().map(|t| t.elapsed()).unwrap_or_default() > Duration::from_millis(limit_ms) {
+                    println!("LOADER {c} hang");
+                    let _ = std::io::stdout().flush();
+                    std::process::exit(3);
+                }
+            });
+        }
+        for idx in idxs {
+            let Some(c) = cases.get(idx) else { return 2 };
+            println!("LOADER-START {idx}");
+            let _ = std::io::stdout().flush();
+            if let Ok(mut t) = started.lock() {
+                *t = Instant::now();
+            }
+            current.store(idx as u64, Ordering::SeqCst);
+            let r = run_loader_case(&dir, c);
+            current.store(u64::MAX, Ordering::SeqCst);
+            match r {
+                Ok(true) => println!("LOADER {idx} some"),
+                Ok(false) => println!("LOADER {idx} none"),
+                Err(e) => println!("LOADER {idx} error {e}"),
+            }
+            let _ = std::io::stdout().flush();
+        }
+        return 0;
+    }
     let fam = match Family::parse(args) {
         Some(f) => f,
         None => return 2,
@@ -710,7 +753,9 @@ fn fam_parser(f: &Family) -> &'static str {
 // ---------------------------------------------------------------------------
 
 struct LoaderCase {
-    name: &'static str,
+    name: String,
+    /// position in a long-token sweep (None: a hand-written case)
+    sweep_k: Option<usize>,
     /// (file name, content) written as zone files
     zones: Vec<(&'static str, Vec<u8>)>,
     hosts: Vec<(&'static str, Vec<u8>)>,
@@ -726,8 +771,9 @@ struct LoaderCase {
 fn loader_cases() -> Vec<LoaderCase> {
     let good_zone: &[u8] = b"$ORIGIN ex.\n@ 60 IN SOA ns1 admin 1 2 3 4 60\nwww 300 IN A 10.0.0.1\n";
     let good_hosts: &[u8] = b"127.0.0.1 localhost\n";
-    let z = |name: &'static str, content: &[u8]| LoaderCase {
-        name,
+    let z = |name: &str, content: &[u8]| LoaderCase {
+        name: name.to_string(),
+        sweep_k: None,
         zones: vec![("10-good.zone", good_zone.to_vec()), ("20-bad.zone", content.to_vec())],
         hosts: vec![("hosts", good_hosts.to_vec())],
         missing_zone_file: false,
@@ -736,8 +782,9 @@ fn loader_cases() -> Vec<LoaderCase> {
         via_dir: false,
         expect_some: false,
     };
-    let h = |name: &'static str, content: &[u8]| LoaderCase {
-        name,
+    let h = |name: &str, content: &[u8]| LoaderCase {
+        name: name.to_string(),
+        sweep_k: None,
         zones: vec![("10-good.zone", good_zone.to_vec())],
         hosts: vec![("10-good", good_hosts.to_vec()), ("20-bad", content.to_vec())],
         missing_zone_file: false,
@@ -793,8 +840,37 @@ fn loader_cases() -> Vec<LoaderCase> {
     c.expect_some = true;
     c.via_dir = true;
     v.push(c);
+    // long-token sweeps: an unusable file whose error report quotes a token of
+    // every length 0..=SWEEP_MAX that ends in a character which is more than
+    // one byte of UTF-8 (written as an escape, so the file itself is ASCII, or
+    // raw), so that whatever the loader does with the text of the error - cut
+    // it, pad it, index it - meets a character boundary at every offset
+    for k in 0..=SWEEP_MAX {
+        let a = "a".repeat(k);
+        let shapes: [(&str, bool, String); 6] = [
+            ("sweep:zone:relative-owner-escape", true, format!("{a}\\233 300 IN A 10.0.0.1\n")),
+            ("sweep:zone:unknown-type-rdata-escape", true, format!("www.ex. 300 IN FOO {a}\\233\n")),
+            ("sweep:zone:raw-non-ascii", true, format!("{a}\u{e9} 300 IN A 10.0.0.1\n")),
+            ("sweep:zone:bad-escape-after-token", true, format!("www.ex. 300 IN TXT {a}\\233\\25b\n")),
+            ("sweep:hosts:bad-name", false, format!("1.2.3.4 {a}..b\n")),
+            ("sweep:hosts:raw-non-ascii", false, format!("1.2.3.4 {a}\u{e9}\n")),
+        ];
+        for (name, is_zone, content) in shapes {
+            let mut c = if is_zone {
+                z(&format!("{name}:{k}"), content.as_bytes())
+            } else {
+                h(&format!("{name}:{k}"), content.as_bytes())
+            };
+            c.sweep_k = Some(k);
+            v.push(c);
+        }
+    }
     v
 }
+
+/// longest token of the loader sweeps (thorough); quick stops at SWEEP_QUICK
+const SWEEP_MAX: usize = 1100;
+const SWEEP_QUICK: usize = 300;
 
 /// Ok(true): loaded (Some), Ok(false): refused (None), Err: panic
 fn run_loader_case(dir: &std::path::Path, c: &LoaderCase) -> Result<bool, String> {
@@ -832,11 +908,20 @@ fn run_loader_case(dir: &std::path::Path, c: &LoaderCase) -> Result<bool, String
     if c.dir_as_file {
         zone_files.push(zdir.clone());
     }
-    let r = std::panic::catch_unwind(|| {
-        let rt = tokio::runtime::Builder::new_current_thread().enable_all().build().expect("runtime");
-        rt.block_on(resolved::fs::load_zone_configuration(&hosts_files, &hosts_dirs, &zone_files, &zone_dirs))
-            .is_some()
-    });
+    // a subscriber that formats every event and field, as the server's does
+    // (the formatted text goes nowhere): without one, the arguments of the
+    // loader's log lines would never be rendered
+    let subscriber = tracing_subscriber::fmt()
+        .with_max_level(tracing::Level::TRACE)
+        .with_writer(std::io::sink)
+        .finish();
+    let r = std::panic::catch_unwind(std::panic::AssertUnwindSafe(|| {
+        tracing::subscriber::with_default(subscriber, || {
+            let rt = tokio::runtime::Builder::new_current_thread().enable_all().build().expect("runtime");
+            rt.block_on(resolved::fs::load_zone_configuration(&hosts_files, &hosts_dirs, &zone_files, &zone_dirs))
+                .is_some()
+        })
+    }));
     r.map_err(|_| "panic".to_string())
 }
 
@@ -879,6 +964,73 @@ fn loader_in_child(dir: &std::path::Path, idx: usize, limit: Duration) -> Result
             Err(e) => return Err(e.to_string()),
         }
     }
+}
+
+/// Run the loader cases `idxs` in as few child processes as it takes: a child
+/// that dies or hangs in a case yields an error for that case and the rest of
+/// the list goes to a fresh child.
+fn loader_batch_in_children(dir: &std::path::Path, idxs: &[usize], limit: Duration) -> Vec<(usize, Result<bool, String>)> {
+    let mut out: Vec<(usize, Result<bool, String>)> = Vec::new();
+    let mut rest: Vec<usize> = idxs.to_vec();
+    while !rest.is_empty() {
+        let exe = match std::env::current_exe() {
+            Ok(e) => e,
+            Err(e) => {
+                out.extend(rest.iter().map(|&i| (i, Err(format!("cannot start the worker: {e}")))));
+                break;
+            }
+        };
+        let mut args: Vec<String> = vec![
+            "worker".into(),
+            "C17".into(),
+            "loaderbatch".into(),
+            dir.display().to_string(),
+            limit.as_millis().to_string(),
+        ];
+        args.extend(rest.iter().map(|i| i.to_string()));
+        let output = Command::new(exe).args(&args).stdin(Stdio::null()).stderr(Stdio::null()).output();
+        let output = match output {
+            Ok(o) => o,
+            Err(e) => {
+                out.extend(rest.iter().map(|&i| (i, Err(format!("cannot start the worker: {e}")))));
+                break;
+            }
+        };
+        let text = String::from_utf8_lossy(&output.stdout).to_string();
+        let mut done: BTreeMap<usize, Result<bool, String>> = BTreeMap::new();
+        let mut last_started: Option<usize> = None;
+        for line in text.lines() {
+            let mut it = line.splitn(3, ' ');
+            match (it.next(), it.next().and_then(|x| x.parse::<usize>().ok()), it.next()) {
+                (Some("LOADER-START"), Some(i), _) => last_started = Some(i),
+                (Some("LOADER"), Some(i), Some("some")) => {
+                    done.insert(i, Ok(true));
+                }
+                (Some("LOADER"), Some(i), Some("none")) => {
+                    done.insert(i, Ok(false));
+                }
+                (Some("LOADER"), Some(i), Some("hang")) => {
+                    done.insert(i, Err(format!("no answer within {limit:?}")));
+                }
+                (Some("LOADER"), Some(i), Some(e)) => {
+                    done.insert(i, Err(e.to_string()));
+                }
+                _ => {}
+            }
+        }
+        if let Some(i) = last_started {
+            done.entry(i).or_insert_with(|| Err(format!("worker ended abnormally ({})", output.status)));
+        }
+        let before = rest.len();
+        rest.retain(|i| !done.contains_key(i));
+        out.extend(done);
+        if rest.len() == before {
+            // the child did not even start the first case
+            out.extend(rest.iter().map(|&i| (i, Err(format!("worker ended abnormally ({}) before the case", output.status)))));
+            break;
+        }
+    }
+    out
 }
 
 // ---------------------------------------------------------------------------
@@ -983,8 +1135,11 @@ pub fn run(ctx: &Ctx) -> i32 {
     // with a time limit (a parser that never returns must not stop the check)
     let dir = work_dir("c17");
     let cases = loader_cases();
-    let loader_results = zonegen::par_jobs(cases.len(), ctx.threads, Vec::new, |acc: &mut Vec<(usize, Result<bool, String>)>, i| {
-        acc.push((i, loader_in_child(&dir, i, Duration::from_secs(20))));
+    let sweep_limit = if ctx.tier == Tier::Thorough { SWEEP_MAX } else { SWEEP_QUICK };
+    let selected: Vec<usize> = (0..cases.len()).filter(|&i| cases[i].sweep_k.map_or(true, |k| k <= sweep_limit)).collect();
+    let batches: Vec<&[usize]> = selected.chunks(64).collect();
+    let loader_results = zonegen::par_jobs(batches.len(), ctx.threads, Vec::new, |acc: &mut Vec<(usize, Result<bool, String>)>, j| {
+        acc.extend(loader_batch_in_children(&dir, batches[j], Duration::from_secs(20)));
     });
     let mut results: Vec<(usize, Result<bool, String>)> = loader_results.into_iter().flatten().collect();
     results.sort_by_key(|r| r.0);
